@@ -222,41 +222,3 @@ extern "C" __attribute__( ( noinline ) ) void w_rule_mem( const char* b, unsigne
 }
 
 #endif
-
-// ------------------------------------------------------------------ string_input / argv_input: thin wrappers over memory_input
-#ifdef C07_THIN
-#include <tao/pegtl/string_input.hpp>
-#include <tao/pegtl/argv_input.hpp>
-
-// o[0] size, o[1] bytes equal to the given ones (0/1), o[2] byte, o[3] line, o[4] column, o[5] result of any, o[6] byte afterwards
-extern "C" __attribute__( ( noinline ) ) void w_string_input( const char* b, unsigned long n, unsigned long* o )
-{
-   string_input< tracking_mode::eager, eol::lf_crlf, const char* > in( std::string( b, n ), "" );
-   o[ 0 ] = in.size( 0 );
-   unsigned long same = ( in.end() - in.begin() == (long)n );
-   for( unsigned long i = 0; i < n && i < o[ 0 ]; ++i ) {
-      same = same && ( in.peek_char( i ) == b[ i ] );
-   }
-   o[ 1 ] = same;
-   o[ 2 ] = in.byte();
-   o[ 3 ] = in.line();
-   o[ 4 ] = in.column();
-   o[ 5 ] = vf::vcontrol< any >::match< apply_mode::nothing, rewind_mode::required, nothing, vf::vcontrol >( in );
-   o[ 6 ] = in.byte();
-}
-
-// argv[ 1 ] = zero-terminated b
-extern "C" __attribute__( ( noinline ) ) void w_argv_input( char* b, unsigned long* o )
-{
-   char* argv[ 2 ] = { nullptr, b };
-   memory_input< tracking_mode::eager, eol::lf_crlf, const char* > ref( b, "" );
-   argv_input< tracking_mode::eager, eol::lf_crlf > in( argv, 1, "" );
-   o[ 0 ] = in.size( 0 );
-   o[ 1 ] = ( in.begin() == b ) && ( in.end() == ref.end() );
-   o[ 2 ] = in.byte();
-   o[ 3 ] = in.line();
-   o[ 4 ] = in.column();
-   o[ 5 ] = vf::vcontrol< any >::match< apply_mode::nothing, rewind_mode::required, nothing, vf::vcontrol >( in );
-   o[ 6 ] = in.byte();
-}
-#endif
